@@ -263,8 +263,17 @@ func (w *World) Preamble(body string) string {
 			}
 		}
 	}
+	// uninterpreted functions the body uses: their signatures may name struct sorts too
+	var decls strings.Builder
+	for _, n := range w.uninterpOrd {
+		if containsSym(body, n) {
+			decls.WriteString(w.uninterp[n])
+			decls.WriteByte('\n')
+		}
+	}
+	scan := body + decls.String()
 	for _, si := range w.structOrder {
-		if strings.Contains(body, si.Name) {
+		if strings.Contains(scan, si.Name) {
 			mark(si)
 		}
 	}
